@@ -35,13 +35,15 @@ Prec(e) == CASE e.k = "leaf" -> 4 [] e.k = "not" -> 3 [] e.k = "and" -> 2 [] e.k
 
 \* a spelling variant is a record of independent choices
 Variants == [acc : {"dot", "bracket"}, ann : {"full", "ctx", "bare", "ret"}, arr : {"brackets", "generic", "union"},
-             sep : {",", ";", "nl"}, quote : BOOLEAN, comment : BOOLEAN, redundant : BOOLEAN, trailing : BOOLEAN,
+             sep : {",", ";", "nl"}, quote : BOOLEAN, comment : {"none", "block", "doc", "stars", "empty", "line"}, redundant : BOOLEAN, trailing : BOOLEAN,
              dblnot : BOOLEAN]
 
 LeafTxt(x, v) == IF v.acc = "dot" THEN "this.related." \o x \o ".includes(ctx.subject)"
                  ELSE "this.related[\"" \o x \o "\"].includes(ctx.subject)"
 Paren(s) == "(" \o s \o ")"
-Cm(v) == IF v.comment THEN " /* c */ " ELSE " "
+\* comments between tokens, in the spellings TypeScript accepts
+Cm(v) == CASE v.comment = "block" -> " /* c */ " [] v.comment = "doc" -> " /** c **/ " [] v.comment = "stars" -> " /***/ "
+           [] v.comment = "empty" -> " /**/ " [] v.comment = "line" -> " // c * /* \n " [] OTHER -> " "
 RECURSIVE Show(_, _)
 Show(e, v) ==
   CASE e.k = "leaf" -> IF v.redundant THEN Paren(LeafTxt(e.r, v)) ELSE LeafTxt(e.r, v)
